@@ -280,6 +280,54 @@ namespace
       for(int x : comm) if(!L.comm.insert(x).second) L.comm_dup = true;
     }
 
+    /// the second overload extract_patch(elements, split_meshparts, split_halos, split_patches) (used by the voxel domain
+    /// control) must produce the same patch as the graph overload, and split the registered patch parts of the base node
+    static bool check_vector_overload(verif::Ctx& c, NodeType& base, const Adjacency::Graph& graph, std::vector<Leaf>& leaves, int qtot)
+    {
+      vm::Rep r; r.ctx = "extract_patch(elements,true,true,true) for rank 0";
+      std::vector<Index> el;
+      for(auto it = graph.image_begin(0); it != graph.image_end(0); ++it) el.push_back(*it);
+      std::unique_ptr<NodeType> alt = base.extract_patch(std::move(el), true, true, true);
+      Leaf& L = leaves[0];
+      vm::PMesh A; std::string err;
+      if(!vm::extract_mesh(A, *alt->get_mesh(), qtot, &err)) { c.fail("overload.lattice", err); return false; }
+      bool same = (A.vtx == L.pm.vtx);
+      for(int d = 1; d <= dim && same; ++d) for(int f = 0; f < d; ++f) if(A.idx[d][f] != L.pm.idx[d][f]) same = false;
+      if(!same) r.fail("overload.mesh", "patch mesh differs from the one extracted through the elements-at-rank graph");
+      for(const auto& nm : base.get_mesh_part_names())
+      {
+        const PartType* p1 = L.node->find_mesh_part(nm); const PartType* p2 = alt->find_mesh_part(nm);
+        if((p1 == nullptr) != (p2 == nullptr)) { r.fail("overload.part", "part '" + nm + "' present in only one of the two extractions"); continue; }
+        if(p1 == nullptr) continue;
+        vm::PPart P1, P2; vm::extract_part(P1, *p1); vm::extract_part(P2, *p2);
+        for(int d = 0; d <= dim; ++d) if(P1.trg[d] != P2.trg[d]) r.fail("overload.part", "part '" + nm + "' differs between the two extractions (dim " + vm::str(d) + ")");
+      }
+      // registered patches of the base node, restricted to this patch: own patch = everything, others = shared entities
+      for(Leaf& O : leaves)
+      {
+        const PartType* sp = alt->get_patch(O.rank);
+        std::set<Index> shared[4]; bool any = false;
+        for(int d = 0; d <= dim; ++d)
+        {
+          std::set<Index> mine(L.tobase[d].begin(), L.tobase[d].end());
+          for(Index x : O.tobase[d]) if(mine.count(x)) { shared[d].insert(x); any = true; }
+        }
+        if(sp == nullptr) { if(any) r.fail("overload.patch-null", "split of patch " + vm::str(O.rank) + " is null although it shares entities with patch 0"); continue; }
+        vm::PPart SP; vm::extract_part(SP, *sp);
+        for(int d = 0; d <= dim; ++d)
+        {
+          std::set<Index> have; bool bad = false;
+          for(Index x : SP.trg[d]) { if(x >= L.pm.n[d]) { bad = true; break; } have.insert(L.tobase[d][size_t(x)]); }
+          if(bad || have.size() != SP.trg[d].size() || have != shared[d])
+            r.fail("overload.patch-split.dim" + vm::str(d), "split of registered patch " + vm::str(O.rank) + " lists " + vm::str(SP.trg[d].size()) + " entities of dim " + vm::str(d) + ", shared with patch 0 are " + vm::str(shared[d].size()));
+        }
+      }
+      c.count("vector_overload_checked");
+      const bool ok = r.ok();
+      flush(c, r);
+      return ok;
+    }
+
     /// one partition given as elements-at-rank graph: extract every patch, check, refine jointly, check again
     static void run_partition(verif::Ctx& c, std::unique_ptr<NodeType> base, const Adjacency::Graph& graph, int depth, int qtot)
     {
@@ -302,6 +350,7 @@ namespace
         }
         if(!check_level(c, *base, leaves, qtot, "level " + vm::str(lvl), true)) return;
         c.count("levels_checked");
+        if(lvl == 0 && !check_vector_overload(c, *base, graph, leaves, qtot)) return;
       }
       c.outcome("ok ranks=" + vm::str(p));
     }
@@ -496,29 +545,27 @@ namespace
         // children assignments of parent 0 and 1: 1 or 2 children each
         for(int k0 = 1; k0 <= 2; ++k0) for(int k1 = 1; k1 <= 2; ++k1)
         {
-          std::vector<int> b0, b1;
-          if(!first_assign(b0, pc[0] * mult, k0)) continue;
+          // refined parents: the children of every coarse parent cell are split into two halves (groups) that are
+          // assigned as a whole, which bounds the space; unrefined parents: one group per cell
+          const size_t gmul = pref ? 2 : 1, gsize = mult / gmul;
+          std::vector<int> g0, g1;
+          if(!first_assign(g0, pc[0] * gmul, k0)) continue;
           do
           {
-            if(!first_assign(b1, pc[1] * mult, k1)) break;
+            if(!first_assign(g1, pc[1] * gmul, k1)) break;
             do
             {
-              // bound the refined-parent space: only assignments that are constant on groups of two consecutive cells
-              if(pref == 1)
-              {
-                bool okb = true;
-                for(size_t i = 0; i + 1 < b0.size(); i += 2) if(b0[i] != b0[i + 1]) okb = false;
-                for(size_t i = 0; i + 1 < b1.size(); i += 2) if(b1[i] != b1[i + 1]) okb = false;
-                if(!okb) continue;
-              }
               if(!c.want()) continue;
+              std::vector<int> b0(pc[0] * mult), b1(pc[1] * mult);
+              for(size_t i = 0; i < b0.size(); ++i) b0[i] = g0[i / gsize];
+              for(size_t i = 0; i < b1.size(); ++i) b1[i] = g1[i / gsize];
               c.desc([&]{ return "two-level " + vm::spec_str(ms) + " cell->parent=" + assign_str(a1) + " parent-refinements=" + std::to_string(pref) + " children0=" + assign_str(b0) + " children1=" + assign_str(b1) + " depth=" + std::to_string(depth); });
               const int qtot = 3 * (depth + pref);
               auto base = X::make_base(ms, qtot, 1);
               X::run_two_level(c, std::move(base), a1, P, {b0, b1}, {k0, k1}, pref, depth, qtot);
               c.nontrivial(verif::Hash().pod(ms.simplex).pod(ms.dim).str(ms.name).str(assign_str(a1)).pod(pref).str(assign_str(b0)).str(assign_str(b1)).get());
-            } while(next_assign(b1, k1));
-          } while(next_assign(b0, k0));
+            } while(next_assign(g1, k1));
+          } while(next_assign(g0, k0));
         }
       }
     } while(next_assign(a1, P));
